@@ -201,8 +201,16 @@ pub fn release(req: u64) {
     HELD_LEN.store(n, Ordering::Relaxed);
 }
 
+/// With several threads an operation's owner may free its state as soon as it
+/// resolved, which can be before Ring::poll published the new head; the
+/// consumer-phase hold is only sound in single-threaded histories.
+pub static CONSUMER_PHASE_HOLDS: AtomicBool = AtomicBool::new(true);
+
 /// Release the regions of `req` except those of kind `keep`.
 pub fn release_except(req: u64, keep: u8) {
+    if !CONSUMER_PHASE_HOLDS.load(Ordering::Relaxed) {
+        return release(req);
+    }
     let _l = lock();
     let held = unsafe { &mut *(&raw mut HELD) };
     let mut n = HELD_LEN.load(Ordering::Relaxed);
